@@ -92,6 +92,11 @@ class SkipTo(Box):
 
 
 def _has_cut(exp: Model) -> bool:
+    from .rulelike import RuleInclude
+
+    if isinstance(exp, RuleInclude):
+        # NOTE: the included right hand side stands in this place
+        return exp.exp is not None and _has_cut(exp.exp)
     return isinstance(exp, Cut) or any(_has_cut(c) for c in exp.children())
 
 
